@@ -2,7 +2,9 @@
 """Sensitivity harness: apply a hand-made mutant to /repo, run the quick check(s) that must catch it, revert.
 
 usage: tools/mutants.py [name ...]      (no names: all)      --tests also runs the repo test-suite on the mutant
-A mutant is (file, old, new, [properties]).  /repo must be clean; it is restored with `git checkout -- .` after each.
+A mutant is (file, old, new, [properties]).  Mutants are applied to a scratch export of /repo's HEAD under /var/tmp
+(removed afterwards) and the check is pointed at it with VERIF_REPO, so /repo itself is never touched and several
+mutant runs can go on in parallel.
 """
 import subprocess
 import sys
@@ -12,6 +14,9 @@ import time
 ROOT = os.path.dirname(os.path.dirname(os.path.abspath(__file__)))
 sys.path.insert(0, ROOT)
 from tools.mutant_defs import MUTANTS   # noqa
+import glob, importlib
+for _f in sorted(glob.glob(os.path.join(ROOT, 'tools', 'mutant_defs_*.py'))):
+    importlib.import_module('tools.' + os.path.basename(_f)[:-3])
 
 
 def sh(cmd, **kw):
@@ -23,9 +28,8 @@ def main():
     run_tests = "--tests" in sys.argv
     tier = "quick"
     names = args or sorted(MUTANTS)
-    if sh("git -C /repo status --porcelain --untracked-files=no").stdout.strip():
-        print("/repo not clean")
-        return 2
+    import tempfile, shutil
+    scratch = tempfile.mkdtemp(prefix="mut_", dir="/var/tmp")
     results = []
     for name in names:
         if name.endswith(":"):
@@ -35,19 +39,22 @@ def main():
         for n in sel:
             edits, props = MUTANTS[n]
             try:
+                if os.path.exists(os.path.join(scratch, "repo")):
+                    shutil.rmtree(os.path.join(scratch, "repo"))
+                sh("mkdir -p %s/repo && cd /repo && git archive HEAD | tar -x -C %s/repo" % (scratch, scratch))
                 for path, old, new in edits:
-                    p = os.path.join("/repo", path)
+                    p = os.path.join(scratch, "repo", path)
                     s = open(p).read()
                     if s.count(old) != 1:
                         raise RuntimeError("mutant %s: pattern occurs %d times in %s" % (n, s.count(old), path))
                     open(p, "w").write(s.replace(old, new))
                 line = [n]
                 if run_tests:
-                    r = sh("cd /repo && /venv/bin/python -m pytest -q -x -p no:cacheprovider --timeout=900 2>&1 | tail -1")
+                    r = sh("cd %s/repo && PYTHONPATH=%s/repo /venv/bin/python -m pytest -q -x -p no:cacheprovider --timeout=900 2>&1 | tail -1" % (scratch, scratch))
                     line.append("tests: " + r.stdout.strip()[-60:])
                 for prop in props:
                     t0 = time.time()
-                    r = sh("timeout -k 5 900 %s/run_check.py %s --tier %s" % (ROOT, prop, tier))
+                    r = sh("VERIF_REPO=%s/repo timeout -k 5 900 %s/run_check.py %s --tier %s" % (scratch, ROOT, prop, tier))
                     viol = [l for l in r.stdout.splitlines() if l.startswith("VIOLATION")]
                     line.append("%s rc=%d %s (%.0fs)" % (prop, r.returncode, "CAUGHT" if r.returncode == 1 and viol else "MISSED" if r.returncode == 0 else "ERROR", time.time() - t0))
                     if r.returncode == 2:
@@ -57,7 +64,8 @@ def main():
                         line.append(" | ".join(s[:150] for s in sigs))
                 print(" ; ".join(line), flush=True)
             finally:
-                sh("git -C /repo checkout -- .")
+                shutil.rmtree(os.path.join(scratch, "repo"), ignore_errors=True)
+    shutil.rmtree(scratch, ignore_errors=True)
     return 0
 
 
